@@ -62,7 +62,7 @@ class C06(InvProp):
         if rng.chance(0.5):
             gen.add_level_controls(rng, scn, rng.irange(1, 3))
         if rng.chance(0.3):
-            gen.add_simple_time_controls(rng, scn, rng.irange(1, 2))
+            gen.add_simple_time_controls(rng, scn, rng.irange(1, 2), p_priority=0.5)     # presolve controls of every priority next to the tank-limit controls
         e1.add_faults(rng, scn, p_pause=0.5, p_rescue=0.1)
         if rng.chance(0.15):
             scn['edits'] = e1.gen_edits(rng, scn)
